@@ -188,6 +188,26 @@ theorem alpha_dask (r : NV K) (nodata : K) :
   cases r <;> ksimp [true_color_alpha_dask]
   split <;> simp_all
 
+/-! ### parameter validation of evi / savi (translated from the `if …: raise` statements) -/
+
+/-- evi rejects exactly soil_factor outside [-1, 1] or gain < 0 -/
+theorem evi_rejects_iff (L G : K) :
+    (evi_validate.cellFailed (envOf [("soil_factor", some L), ("gain", some G)])
+        (fun _ _ _ => (none : NV K)) (fun _ => [])).isSome = true ↔ (1 < L ∨ L < -1 ∨ G < 0) := by
+  by_cases h1 : 1 < L <;> by_cases h2 : L < -1 <;> by_cases h3 : G < 0 <;>
+    ksimp [evi_validate, h1, h2, h3]
+
+/-- savi rejects exactly soil_factor outside [-1, 1] -/
+theorem savi_rejects_iff (L : K) :
+    (savi_validate.cellFailed (envOf [("soil_factor", some L)])
+        (fun _ _ _ => (none : NV K)) (fun _ => [])).isSome = true ↔ (L < -1 ∨ 1 < L) := by
+  by_cases h1 : 1 < L <;> by_cases h2 : L < -1 <;>
+    ksimp [savi_validate, h1, h2, not_le.mpr, le_of_not_gt]
+
+/-- every band is cast to float32 before the kernel runs ("in single precision") -/
+theorem bands_cast_f4 : allIndexWirings.all (fun w => w.casts.all (· == "f4") && w.casts.length == w.arrays.length) = true := by
+  decide
+
 /-! ### the dask wrappers map the *same* kernel with the same argument order (used by C01) -/
 theorem dask_same_kernel : allIndexWirings.all (·.daskSameKernel) = true := by decide
 
